@@ -1,4 +1,5 @@
 import ExprModel.Proofs.LexNumber
+import ExprModel.Proofs.LexString
 import ExprModel.Gen.LexTables
 /-
 C12 — Literals and token positions are lexed faithfully.
@@ -176,5 +177,58 @@ theorem float_classified (cfg : NumCfg) (hcfg : cfg = .asIs ∨ cfg = .repaired)
   simp [hcl]
 
 example : parseNumber NumCfg.asIs "1_0.5e-3" = .ok (.float "10.5e-3") := by decide
+
+/-! ## String literals -/
+
+/-- the literal a string value is written as: `cs` pairs every character of the value with the way it is
+spelled (`Spell.raw`, `.named` = `\a \b \f \n \r \t \v \\` or the escaped quote, `.x` = `\xHH`, `.u` = `\uXXXX`,
+`.U` = `\UXXXXXXXX` with a letter case per digit, `.oct` = `\NNN`) -/
+def stringSpelling (q : Char) (cs : List (Char × Spell)) : String := String.ofList (renderLit q cs)
+
+example : stringSpelling '"' [('a', .raw), ('\n', .named), ('"', .named), ('é', .x [true]), ('é', .u []),
+    ('😀', .U [false, false, false, true, true]), ('A', .oct), ('\'', .raw), ('\t', .raw)]
+    = "\"a\\n\\\"\\xE9\\u00e9\\U0001F600\\101'\t\"" := by decide
+
+/-- **string_roundtrip**: for every string value (any Unicode scalar values: control characters, quotes,
+backslashes, non-BMP), either quote, and every admissible choice of spelling per character, lexing the
+literal yields exactly one String token holding that value, at 1:0, followed by EOF.  `cc` is any
+classification of runes that does not call the quote a space (true of `unicode.IsSpace`). -/
+theorem string_roundtrip (cc : CharClass) (q : Char) (hq : q = '"' ∨ q = '\'') (hsp : cc.isSpace q = false)
+    (cs : List (Char × Spell)) (hok : ∀ p ∈ cs, p.2.Ok q p.1) :
+    lex cc LexTables.std (stringSpelling q cs) =
+      .ok [{ kind := .string, value := String.ofList (cs.map (·.1)), loc := ⟨1, 0⟩ },
+           { kind := .eof, value := "", loc := ⟨1, (renderLit q cs).length - 1⟩ }] := by
+  simp only [lex, stringSpelling, String.toList_ofList]
+  exact lexChars_renderLit cc q hq hsp cs hok
+
+/-- every character has at least one admissible spelling (`\U`), most have several: the quantification
+over `Spell.Ok` choices is never empty -/
+theorem spelling_exists (q c : Char) : ∃ sp : Spell, sp.Ok q c := ⟨.U [], trivial⟩
+
+/-- … with the tables regenerated from the source on this run and any ASCII-exact classification -/
+theorem string_roundtrip_code (cc : CharClass) (hcc : cc.AsciiExact) (q : Char) (hq : q = '"' ∨ q = '\'')
+    (cs : List (Char × Spell)) (hok : ∀ p ∈ cs, p.2.Ok q p.1) :
+    lex cc Gen.lexTables (stringSpelling q cs) =
+      .ok [{ kind := .string, value := String.ofList (cs.map (·.1)), loc := ⟨1, 0⟩ },
+           { kind := .eof, value := "", loc := ⟨1, (renderLit q cs).length - 1⟩ }] := by
+  rw [tables_pinned]
+  refine string_roundtrip cc q hq ?_ cs hok
+  rcases hq with rfl | rfl
+  · rw [hcc.space _ (by decide)]; decide
+  · rw [hcc.space _ (by decide)]; decide
+
+/-- quirks of the code the round trip has to respect (and the model mirrors): a raw carriage return inside a
+literal becomes a line feed; `\'` inside a double-quoted literal is rejected by `scanEscape` although
+`unescapeChar` knows it; `\400` passes `scanEscape` and is rejected by `unescapeChar` (error reported after
+the closing quote); `\xE9` denotes U+00E9, not the byte E9; a surrogate `\uD800` becomes U+FFFD -/
+theorem string_quirks :
+    lexChars CharClass.ascii LexTables.std ['"', 'a', '\r', 'b', '"'] =
+      .ok [⟨.string, "a\nb", ⟨1, 0⟩⟩, ⟨.eof, "", ⟨1, 4⟩⟩] ∧
+    lexChars CharClass.ascii LexTables.std "\"\\'\"".toList = .error (⟨1, 3⟩, "escape") ∧
+    lexChars CharClass.ascii LexTables.std "'\\''".toList = .ok [⟨.string, "'", ⟨1, 0⟩⟩, ⟨.eof, "", ⟨1, 3⟩⟩] ∧
+    lexChars CharClass.ascii LexTables.std "\"\\400\"".toList = .error (⟨1, 6⟩, "unescape") ∧
+    lexChars CharClass.ascii LexTables.std "\"\\xE9\"".toList = .ok [⟨.string, "é", ⟨1, 0⟩⟩, ⟨.eof, "", ⟨1, 5⟩⟩] ∧
+    lexChars CharClass.ascii LexTables.std "\"\\uD800\"".toList = .ok [⟨.string, "\uFFFD", ⟨1, 0⟩⟩, ⟨.eof, "", ⟨1, 7⟩⟩] ∧
+    lexChars CharClass.ascii LexTables.std "\"a\nb\"".toList = .error (⟨2, 0⟩, "unterminated") := by decide
 
 end ExprModel.C12
